@@ -266,6 +266,18 @@ def run(ctx):
             ref = add(pos, [(False, es, False)], "reference")
             tr = add(pos, [(False, es, True)], "trailing comma")
             pairs.append((ref, tr, "a trailing comma in a serde list at %s" % pos))
+            if len(es) == 2 and es[0][0].split(" ")[0] != es[1][0].split(" ")[0]:
+                # the entries of one list written as two attributes, in both orders (serde reads them as one set)
+                sp1 = add(pos, [(False, [es[0]], False), (False, [es[1]], False)], "split")
+                sp2 = add(pos, [(False, [es[1]], False), (False, [es[0]], False)], "split, reversed")
+                pairs.append((ref, sp1, "`%s` and `%s` written in two #[serde(..)] attributes at %s" % (es[0][0], es[1][0], pos)))
+                pairs.append((ref, sp2, "`%s` and `%s` written in two #[serde(..)] attributes (reversed) at %s" % (es[0][0], es[1][0], pos)))
+                k0, k1 = es[0][0].split(" ")[0], es[1][0].split(" ")[0]
+                if k0 in ts_t and k1 in ts_t and ts_t[k0] == sd_t[k0] and ts_t[k1] == sd_t[k1] and "skip" not in (k0, k1):   # #[ts(skip)] switches serde parsing off (documented)
+                    mx1 = add(pos, [(True, [es[0]], False), (False, [es[1]], False)], "split, first as ts")
+                    mx2 = add(pos, [(False, [es[0]], False), (True, [es[1]], False)], "split, second as ts")
+                    pairs.append((ref, mx1, "`%s` (ts) and `%s` (serde) in two attributes at %s" % (es[0][0], es[1][0], pos)))
+                    pairs.append((ref, mx2, "`%s` (serde) and `%s` (ts) in two attributes at %s" % (es[0][0], es[1][0], pos)))
             for u in (unknown_here if not ctx.quick else rng.sample(unknown_here, min(5, len(unknown_here)))):
                 for i in range(len(es) + 1):
                     a = add(pos, [(False, es[:i] + [u] + es[i:], False)], "unknown inserted")
@@ -342,7 +354,7 @@ def run(ctx):
     ctx.coverage.update({
         "evaluations": len(cases) + len(off_cases),
         "distinct_nontrivial": len(nontrivial),
-        "rule": "attribute lists built from the key tables regenerated from the source (every key of every impl_parse! table at the four positions, with values of the kind its handler expects): every shared key alone and in pairs in both spellings and mixed; both spellings with different values in both attribute orders (ts must win); every unsupported serde attribute of a 12-entry catalogue inserted at every index of every 1- and 2-entry list and in its own list; `default`/`deny_unknown_fields` with and without argument; trailing commas; list-form values of known keys; #[ts(skip)] + serde; run through the real attribute parsers (in-process hook) and through Model/Attr.v, records compared; the property's equalities are evaluated on the REAL records; second build without serde-compat; non-trivial = distinct attribute sets whose record differs from the default",
+        "rule": "attribute lists built from the key tables regenerated from the source (every key of every impl_parse! table at the four positions, with values of the kind its handler expects): every shared key alone and in pairs in both spellings and mixed; both spellings with different values in both attribute orders (ts must win); every unsupported serde attribute of a 12-entry catalogue inserted at every index of every 1- and 2-entry list and in its own list; `default`/`deny_unknown_fields` with and without argument; trailing commas; the entries of a two-entry list written as two attributes in both orders and in mixed spelling; list-form values of known keys; #[ts(skip)] + serde; run through the real attribute parsers (in-process hook) and through Model/Attr.v, records compared; the property's equalities are evaluated on the REAL records; second build without serde-compat; non-trivial = distinct attribute sets whose record differs from the default",
         "samples": [dict(position=cases[k][0], source=src_of(cases[k][1]), record=real[k]) for k in (0, len(cases) // 3, len(cases) // 2, len(cases) - 1)],
         "correspondence": {"cases": len(cases) + len(off_cases), "confirmed_breaks": len(corr)},
         "oracle": {"equalities_checked": len(pairs), "violations": len(viol), "known": known},
